@@ -110,19 +110,42 @@ fn main() {
         let s = gen_schema(&mut rng, &SchemaCfg { descriptions: false, custom_directives: true });
         // the first case is the exhaustive small-scope part: a fixed schema and one operation per
         // (leaf kind, wrapper nesting up to `wrapper_depth` list levels), each judged under both option values
-        let sdl = if special { "scalar Date\nenum E { A B }\ninput In { x: Int, y: [In!] }\ntype Query { a: Int }\n".to_string() } else { s.render() };
-        let doc = match load_schema(&sdl) { Ok(d) => d, Err(_) => { bump("schema-load-error"); continue; } };
-        if !check_schema(&doc).is_empty() { bump("schema-invalid"); continue; }
-        let ts = to_type_system(&doc);
-        // scalar configuration: builtins (sometimes overridden) + every custom scalar, one of the three shapes
+        let base_sdl = if special { "scalar Date\nscalar Stamp\nenum E { A B }\ninput In { x: Int, y: [In!], d: Date, s: [Stamp!] }\ntype Query { a: Int }\n".to_string() } else { s.render() };
+        // scalar configuration: builtins (sometimes overridden) + every custom scalar, typed by the `scalarTypes`
+        // option (one of the three shapes), by a hand-written `@nitrogql_ts_type` directive with four target
+        // types (as the graphql-scalars plugin writes them), or by both (the option must win)
         let mut scalars: Vec<(String, ScalarTypeConfig)> = vec![
             ("ID".into(), ScalarTypeConfig::SendReceive(SendReceiveScalarTypeConfig { send: "string | number".into(), receive: "string".into() })),
             ("String".into(), ScalarTypeConfig::Single("string".into())), ("Int".into(), ScalarTypeConfig::Single("number".into())),
             ("Float".into(), ScalarTypeConfig::Single("number".into())), ("Boolean".into(), ScalarTypeConfig::Single("boolean".into()))];
         let others: Vec<String> = if special { vec!["In".into(), "E".into()] } else { s.types.iter().filter(|t| matches!(t.kind, Kind::Enum { .. } | Kind::Input { .. })).map(|t| t.name.clone()).collect() };
         if rng.chance(1, 4) { let k = rng.below(scalars.len()); scalars[k].1 = scalar_cfg(&mut rng, &others); }
-        if special { scalars.push(("Date".into(), ScalarTypeConfig::SendReceive(SendReceiveScalarTypeConfig { send: "Date | string".into(), receive: "string".into() }))); }
-        else { for t in &s.types { if matches!(t.kind, Kind::Scalar) { scalars.push((t.name.clone(), scalar_cfg(&mut rng, &others))); } } }
+        let custom: Vec<String> = if special { vec!["Date".into(), "Stamp".into()] } else { s.types.iter().filter(|t| matches!(t.kind, Kind::Scalar)).map(|t| t.name.clone()).collect() };
+        let mut sdl = base_sdl.clone();
+        let mut directive_json: Vec<J> = vec![];
+        for (k, name) in custom.iter().enumerate() {
+            // 0: option only, 1: directive only, 2: both
+            let mode = if special { k + 1 } else { rng.below(3) };
+            if mode != 1 {
+                let c = if special { ScalarTypeConfig::SendReceive(SendReceiveScalarTypeConfig { send: "Date | string".into(), receive: "string".into() }) } else { scalar_cfg(&mut rng, &others) };
+                scalars.push((name.clone(), c));
+            }
+            if mode != 0 {
+                // four DIFFERENT target types; operationInput sometimes a primitive so that plain values are admitted
+                let oi = if special || rng.chance(1, 2) { (*rng.pick(&["string", "number", "boolean"])).to_string() } else { format!("OpIn{k}") };
+                let args = format!("resolverInput: \"ResIn{k}\", resolverOutput: \"ResOut{k} | string\", operationInput: \"{oi}\", operationOutput: \"OpOut{k}\"");
+                sdl = sdl.replace(&format!("scalar {name}\n"), &format!("scalar {name} @nitrogql_ts_type({args})\n"));
+                if !sdl.contains("directive @nitrogql_ts_type") {
+                    sdl.push_str("directive @nitrogql_ts_type(resolverInput: String!, resolverOutput: String!, operationInput: String!, operationOutput: String!) on SCALAR\n");
+                }
+                bump(if mode == 1 { "scalar-typed-by:directive" } else { "scalar-typed-by:directive+option" });
+                directive_json.push(json!({"scalar": name, "operationInput": oi, "overridden_by_option": mode == 2}));
+            } else { bump("scalar-typed-by:option"); }
+        }
+        let _ = &directive_json;
+        let doc = match load_schema(&sdl) { Ok(d) => d, Err(_) => { bump("schema-load-error"); continue; } };
+        if !check_schema(&doc).is_empty() { bump("schema-invalid"); continue; }
+        let ts = to_type_system(&doc);
         for (_, c) in &scalars { bump(&format!("scalar-config:{}", cfg_shape(c))); }
         let ns = if rng.chance(1, 5) { "S".to_string() } else { "Schema".to_string() };
         // operations: generated accepted documents + synthetic variable lists
@@ -130,7 +153,7 @@ fn main() {
         if special {
             let mut nestings: Vec<Vec<String>> = vec![vec!["@".into(), "@!".into()]];
             for d in 0..wrapper_depth { let next: Vec<String> = nestings[d].iter().flat_map(|x| vec![format!("[{x}]"), format!("[{x}]!")]).collect(); nestings.push(next); }
-            for leaf in ["Int", "Date", "E", "In"] {
+            for leaf in ["Int", "Date", "Stamp", "E", "In"] {
                 for (k, n) in nestings.iter().flatten().enumerate() {
                     for rep in 0..2 { op_texts.push((format!("query W{leaf}{k}x{rep}($v: {}) {{ __typename }}\n", n.replace('@', leaf)), "exhaustive-wrappers")); }
                 }
